@@ -11,7 +11,8 @@
    any size, field order and nesting depth. *)
 From Coq Require Import List NArith.
 From Muscle Require Import Msg.MsgDefs Msg.MsgModel Msg.MsgApi Msg.MsgBytesProofs Msg.MsgSizeProofs
-  Msg.MsgRoundTrip Msg.MsgReprProofs Msg.MsgApiProofs Msg.MsgEqProofs Msg.MsgFuelProofs Msg.MsgExamples.
+  Msg.MsgRoundTrip Msg.MsgReprProofs Msg.MsgApiProofs Msg.MsgEqProofs Msg.MsgFuelProofs Msg.MsgExamples
+  Msg.TmplModel Msg.TmplProofs.
 Local Open Scope N_scope.
 
 (* 1. the advertised flattened size is the number of bytes written *)
@@ -106,6 +107,17 @@ Theorem C01_unflatten_never_fuel : forall w : bytes, unflatten w <> Fuel.
 Proof. exact unflatten_never_fuel. Qed.
 Print Assumptions C01_unflatten_never_fuel.
 
+(* 8c. the TEMPLATED serialisation (Message::TemplatedFlatten / TemplatedUnflatten, used by the templating
+   mode of MessageIOGateway): for every template t and every payload p of t's shape (same flattenable fields,
+   order, names, type codes and item counts at every level -- what equality of TemplateHashCode64 stands for),
+   the templated bytes exist, their number is TemplatedFlattenedSize, and parsing them against t gives p back
+   (modulo strip and norm, exactly as for the ordinary codec) *)
+Theorem C01_tmpl_roundtrip : forall t p : msg,
+  wf_msg t -> ne_msg t -> wf_msg p -> same_shape t p = true -> tmpl_flattened_size t p < two32 ->
+  exists b, tmpl_flatten t p = Some b /\ len b = tmpl_flattened_size t p /\ tmpl_unflatten t b = Ok (rt p).
+Proof. exact tmpl_roundtrip. Qed.
+Print Assumptions C01_tmpl_roundtrip.
+
 (* 9. the domain boundary F9: a String with an embedded NUL is outside wf and does come back truncated *)
 Theorem C01_nul_string_truncates :
   unflatten (flatten nul_msg) = Ok (Msg 0 (FCons nm_a Gen.Consts.c_B_STRING_TYPE (RInline (IStr (cons Coq.Init.Byte.x61 nil))) FNil))
@@ -118,5 +130,7 @@ Example C01_ex_wf : wf ex_msg.
 Proof. exact ex_wf. Qed.
 Example C01_ex_nontrivial : rt ex_msg <> ex_msg /\ unflatten (flatten ex_msg) = Ok (rt ex_msg).
 Proof. exact (conj ex_rt_differs ex_roundtrip). Qed.
+Example C01_ex_tmpl : wf_msg (tmpl_of_msg ex_msg) /\ ne_msg (tmpl_of_msg ex_msg) /\ same_shape (tmpl_of_msg ex_msg) ex_msg = true.
+Proof. exact (conj (proj1 ex_tmpl) (conj (proj1 (proj2 ex_tmpl)) (proj1 (proj2 (proj2 ex_tmpl))))). Qed.
 Example C01_ex_ops_ok : Forall op_ok ex_ops /\ wf (run ex_ops empty_msg).
 Proof. exact (conj ex_ops_ok (proj1 ex_ops_result)). Qed.
